@@ -85,7 +85,7 @@ type lexer struct {
 	tag      struct {      // current tag
 		name  string      // name
 		attr  string      // current attribute name
-		index int         // index of first byte of the current attribute value in src
+		index int         // index of first byte of the current attribute value in src, -1 if a token has been emitted after its first byte
 		ctx   ast.Context // context of the tag's content
 	}
 	rawMarker      []byte     // raw marker, not nil when a raw statement has been lexed
@@ -173,6 +173,10 @@ func (l *lexer) emitAtLineColumn(line, column int, typ tokenTyp, length int) {
 	if length > 0 {
 		l.lastTokenType = typ
 		l.src = l.src[length:]
+		if l.tag.index > 0 {
+			// The index no longer refers to the attribute value.
+			l.tag.index = -1
+		}
 	}
 }
 
@@ -437,7 +441,7 @@ func (l *lexer) scan() {
 						p = 0
 						lin = l.line
 						col = l.column
-					} else if l.tag.attr == "type" {
+					} else if l.tag.attr == "type" && l.tag.index >= 0 {
 						switch l.tag.name {
 						case "script":
 							typ := l.src[l.tag.index:p]
